@@ -8,6 +8,7 @@ import (
 	"encoding/json"
 	"flag"
 	"fmt"
+	"math"
 	"os"
 	"os/exec"
 	"runtime"
@@ -107,6 +108,8 @@ func epStringSource(src string) string {
 
 var epFormats = []string{"b", "e", "E", "f", "g", "G", "x", "X"}
 var epPrecisions = []int64{-1 << 63, -2, 2001, 1 << 31, 1 << 40, 1 << 62}
+var epExtremeFloats = []float64{1e21, -2.5e30, 9.99999e20, 1.7976931348623157e308, -1.7976931348623157e308, 5e-324, 1e-7, 123456789012345680000.0,
+	math.Inf(1), math.Inf(-1), math.NaN()}
 var epExtremeInts = []int64{-1 << 63, -1, 0, 1 << 31, 1 << 40, 1 << 62, 1<<63 - 1}
 
 func epOnly(want string, e epExpr) func(string, map[string]any, int) (epExpr, bool) {
@@ -172,6 +175,23 @@ var epFaults = []epFault{
 		Build: epOnly("step", epExpr{"intToString($.steps.pre.outputs.success.i)", "string"})},
 	// extreme arguments: valid for the (unbounded) integer input, outside the declared range of the parameter
 	{ID: "extreme-precision", Class: "extreme", Variants: len(epFormats) * len(epPrecisions), Build: epPrecisionExpr},
+	// not a fault: a `pattern`-typed input property carried through to wherever any value may go.  The data model holds inputs
+	// in serialized form (text); an engine that put the unserialized form (*regexp.Regexp) there would fail its own schemas.
+	{ID: "pattern-typed-input", Class: "extreme", Build: epOnly("input", epExpr{"$.input.pat", "any"})},
+	// extreme FLOAT values from the workflow input through the float-to-text built-ins: their results go into outputs and step
+	// inputs whose schema carries the pattern the built-in declares for its result (a result outside it is a 'bug:' error)
+	{ID: "extreme-float", Class: "extreme", Variants: 2 * len(epExtremeFloats),
+		Build: func(src string, in map[string]any, k int) (epExpr, bool) {
+			if src != "input" {
+				return epExpr{}, false
+			}
+			in["fv"] = epExtremeFloats[(k/2)%len(epExtremeFloats)]
+			if k%2 == 0 {
+				return epExpr{"floatToString($.input.fv)", "string"}, true
+			}
+			in["fmt"], in["prec"] = "g", int64(-1)
+			return epExpr{"floatToFormattedString($.input.fv, $.input.fmt, $.input.prec)", "string"}, true
+		}},
 	{ID: "extreme-integer", Class: "extreme", Variants: len(epExtremeInts),
 		Pinned: []string{"foreach:parallelism", "plugin:closure_wait_timeout"},
 		Build: func(src string, in map[string]any, k int) (epExpr, bool) {
@@ -318,7 +338,7 @@ func epProp(name, ty string, required bool) string {
 }
 
 const epRootProps = "name:string:true,z:integer:false,prei:integer:false,opt:string:false,lst:strings:false,empty:strings:false," +
-	"one:strings:false,anyv:any:false,anym:any:false,mpi:intmap:false,mp:strmap:false,fv:float:false,fmt:string:false,prec:integer:false,big:integer:false," +
+	"one:strings:false,anyv:any:false,anym:any:false,mpi:intmap:false,mp:strmap:false,fv:float:false,fmt:string:false,prec:integer:false,big:integer:false,pat:pattern:false," +
 	"items:items:false,okitems:items:false"
 
 func epTypeYAML(t string) string {
@@ -382,7 +402,7 @@ type epCase struct {
 func epDefaultInput() map[string]any {
 	return map[string]any{
 		"name": "nm", "z": int64(3), "prei": int64(4), "lst": []any{"a", "b"}, "empty": []any{}, "one": []any{"k"},
-		"anyv": "text", "anym": map[string]any{"a": "b"}, "mpi": map[any]any{int64(1): "b"}, "mp": map[string]any{"a": "b"}, "fv": 1.5, "fmt": "f", "prec": int64(2), "big": int64(5),
+		"pat": "^[a-z]+$", "anyv": "text", "anym": map[string]any{"a": "b"}, "mpi": map[any]any{int64(1): "b"}, "mp": map[string]any{"a": "b"}, "fv": 1.5, "fmt": "f", "prec": int64(2), "big": int64(5),
 		"items":   []any{map[string]any{"s": "k0", "i": int64(1)}, map[string]any{"s": "k1", "i": int64(2)}},
 		"okitems": []any{map[string]any{"s": "g0", "i": int64(1), "one": []any{"k"}}, map[string]any{"s": "g1", "i": int64(0), "one": []any{"k"}}},
 	}
